@@ -180,6 +180,7 @@ fn route_value(x: &Locale, k: u32) -> Result<Locale, &'static str> {
                 let _ = y.extensions.private.add_tag(t);
             }
         }
+        8 | 9 => y.id.set_variants(&[]),
         6 => {
             y.id.language = x.id.language.as_str().parse().unwrap();
             y.id.script = x.id.script.map(|s| s.as_str().parse().unwrap());
@@ -659,6 +660,20 @@ fn answer_inner(line: &str) -> String {
             let y = match route_value(&x, k) {
                 Ok(y) => y,
                 Err(e) => return format!("ok {}", e),
+            };
+            // routes 8 and 9 empty the variant list with `set_variants(&[])`; the other route to that value is
+            // `clear_variants()` (8) / parsing the text of the emptied value (9)
+            let x = match k {
+                8 => {
+                    let mut x2 = x.clone();
+                    x2.id.clear_variants();
+                    x2
+                }
+                9 => match Locale::from_bytes(y.to_string().as_bytes()) {
+                    Ok(z) => z,
+                    Err(_) => return "ok reparsefail".to_string(),
+                },
+                _ => x,
             };
             format!(
                 "ok eq={} cmp={} he={} se={}",
